@@ -75,6 +75,21 @@ def sym(n):
     return Lin(0, {n: 1})
 
 
+def _subst_pins(v, pins):
+    if isinstance(v, Lin):
+        c = v.c
+        t = {}
+        for k, co in v.t.items():
+            if k in pins:
+                c += co * pins[k]
+            else:
+                t[k] = co
+        return Lin(c, t)
+    if isinstance(v, tuple):
+        return tuple(_subst_pins(x, pins) for x in v)
+    return v
+
+
 CASES = {
     "A": {"R": (0, 0)},  # nothing unconsumed
     "B": {"R": (1, INF)},  # unconsumed octets, needle absent
@@ -195,7 +210,9 @@ class Abs:
                 if self.needle is not None and nd[1].const() != self.needle:
                     return None
                 # the case split is only meaningful for a search that starts at the unconsumed position and runs to the end
-                if abs_from != self.P or x[2] != self.N:
+                # (compared under what the path's own conditions have fixed so far, e.g. position = 0 after `if pos:` was false)
+                pins_ = self.pinned()
+                if _subst_pins(abs_from, pins_) != _subst_pins(self.P, pins_) or _subst_pins(x[2], pins_) != _subst_pins(self.N, pins_):
                     return None
                 if self.case in ("A", "B"):
                     return ("lin", Lin(-1))
@@ -339,6 +356,61 @@ class Abs:
             return False if lo == hi == 0 else (True if lo > 0 or hi < 0 else None)
         return None
 
+    def assume(self, g, pol):
+        """a condition the case does not decide holds with polarity `pol` on this path: narrow the range of the symbol it constrains (when it constrains
+        exactly one symbol, with coefficient +-1).  -> False when that contradicts the case, True otherwise (also when nothing could be learnt)"""
+        t = g[0]
+        if t == "not":
+            return self.assume(g[1], not pol)
+        d, op = None, None
+        if t == "cmp" and g[1] in ("Eq", "NotEq", "Lt", "LtE", "Gt", "GtE"):
+            a, b = self.ev(g[2]), self.ev(g[3])
+            if a and b and a[0] == "lin" and b[0] == "lin":
+                d, op = a[1] - b[1], g[1]
+        else:
+            v = self.ev(g)
+            if v and v[0] == "lin":
+                d, op = v[1], "NotEq"  # truthiness of a number
+            elif v and v[0] in ("seq", "empty"):
+                d, op = self._len(v)[1], "NotEq"
+        if d is None or len(d.t) != 1:
+            return True
+        (k, coef), = d.t.items()
+        if coef not in (1, -1):
+            return True
+        if not pol:
+            op = {"Eq": "NotEq", "NotEq": "Eq", "Lt": "GtE", "GtE": "Lt", "Gt": "LtE", "LtE": "Gt"}[op]
+        # coef*k + c  op  0   ->   k  op'  bound
+        c = d.c
+        lo, hi = self.rng.get(k, (0, INF))
+        if coef == -1:
+            op = {"Lt": "Gt", "Gt": "Lt", "LtE": "GtE", "GtE": "LtE"}.get(op, op)
+            bound = c
+        else:
+            bound = -c
+        if op == "Eq":
+            lo, hi = max(lo, bound), min(hi, bound)
+        elif op == "NotEq":
+            if lo == bound:
+                lo += 1
+            if hi == bound:
+                hi -= 1
+        elif op == "Lt":
+            hi = min(hi, bound - 1)
+        elif op == "LtE":
+            hi = min(hi, bound)
+        elif op == "Gt":
+            lo = max(lo, bound + 1)
+        elif op == "GtE":
+            lo = max(lo, bound)
+        if lo > hi:
+            return False
+        self.rng[k] = (lo, hi)
+        return True
+
+    def pinned(self):
+        return {k: lo for k, (lo, hi) in self.rng.items() if lo == hi}
+
     def in_domain(self, g):
         """the condition is a comparison of buffer quantities (its truth may still depend on their size)"""
         t = g[0]
@@ -462,11 +534,15 @@ class BufSem:
                     b = A.truth(g)
                     if b is None:
                         if not A.in_domain(g):
-                            if kind in ("pop-line", "trim-needle") and any(frm != A.P or end != A.N for nd, frm, end in A.finds):
+                            pins_ = A.pinned()
+                            if kind in ("pop-line", "trim-needle") and any(_subst_pins(frm, pins_) != _subst_pins(A.P, pins_) or _subst_pins(end, pins_) != _subst_pins(A.N, pins_) for nd, frm, end in A.finds):
                                 return Verdict(False, f"{name}: the search does not run from the first unconsumed octet to the end of the buffer (when {self._case_text(case, needle)})",
                                                witness="; ".join(f"search from {frm} to {end}" for nd, frm, end in A.finds), line=ln)
                             return Verdict(None, f"{name}: condition `{show_sv(g)}` is outside the buffer domain (case {case})", line=ln)
-                        continue  # a comparison the case does not decide (e.g. position against a constant): both outcomes are possible
+                        if not A.assume(g, pol):
+                            cons = False
+                            break
+                        continue  # a comparison the case does not decide (e.g. position against a constant): both outcomes are possible, each under its own constraint
                     if b != pol:
                         cons = False
                         break
@@ -480,6 +556,12 @@ class BufSem:
                     return Verdict(False, f"{name} has an effect besides the buffer content and position", witness=str(extra[0][:3]), line=extra[0][-1] if isinstance(extra[0][-1], int) else fn.node.lineno)
                 d, q = self._final(p, A)
                 r = A.ev(p.ret) if p.ret is not None else ("none",)
+                pins = A.pinned()
+                if pins:
+                    # symbols the path's own conditions fix to one value (`if count:` false -> count = 0) are replaced by it
+                    d, q, r = _subst_pins(d, pins), _subst_pins(q, pins), _subst_pins(r, pins)
+                    A.P, A.N, A.K = _subst_pins(A.P, pins), _subst_pins(A.N, pins), _subst_pins(A.K, pins)
+                    A.finds = [(nd_, _subst_pins(f_, pins), _subst_pins(e_, pins)) for nd_, f_, e_ in A.finds]
                 if kind in ("pop-line", "trim-needle") and case in "CD" and getattr(A, "rfinds", 0):
                     return Verdict(False, f"{name}: searches for the last {hex(needle) if needle is not None else 'needle'} instead of the first one: when a later one exists, everything between the two "
                                    f"is skipped (when {self._case_text(case, needle)})", witness=f"content'={fmt(d)} position'={fmt(q)} returns {fmt(r)}", line=fn.node.lineno)
